@@ -94,6 +94,7 @@ class C02(Check):
     def translate(self, ctx):
         wntr = vlib.import_wntr()
         self.info = T.write_c02(wntr)
+        ctx.cov["updater_registrations"] = T.write_updater(wntr)
         ctx.cov["zoo_rows"] = self.info["hist"]["default"]
 
     # ------------------------------------------------------------------ helpers
